@@ -305,8 +305,8 @@ def check_c07(ctx):
         hbox = dict(nmax=8, cms=(1, 2), cds=(0, 1, 2))
         dn, rn = 9, 11
     else:
-        hbox = dict(nmax=10, cms=(1, 2, 3), cds=(0, 1, 2, 3))
-        dn, rn = 11, 13
+        hbox = dict(nmax=9, cms=(1, 2, 3), cds=(0, 1, 2, 3))
+        dn, rn = 10, 12
     # search boxes
     cfgs = []
     for n in range(1, max(hbox["nmax"], dn, rn) + 1):
